@@ -39,8 +39,9 @@ const (
 	oAliasPayload                      // C06: the decoded value changes when the payload buffer is overwritten afterwards
 	oReceiverDep                       // C06: decoding into a receiver that holds another value yields a different value
 	oRepeatDiffers                     // C08: the same payload decoded twice in a row into one receiver: the verdicts differ
+	oOtherInstance                     // C06: the decoded value changes when another datapoint of the type decodes another payload
 
-	c06Bits = oPanicPack | oPanicReUnpack | oReRejected | oDrift | oNotIdentical | oAliasPayload | oReceiverDep
+	c06Bits = oPanicPack | oPanicReUnpack | oReRejected | oDrift | oNotIdentical | oAliasPayload | oReceiverDep | oOtherInstance
 	c08Bits = oPanicUnpack | oWrongLen | oOutOfRange | oPanicString | oPanicUnit | oRepeatDiffers
 )
 
@@ -285,6 +286,14 @@ func (c *codec) eval(p []byte, fl flags) (o outcome) {
 			// group address into the same variable): the result must be that of a fresh receiver
 			stage = stUnpack
 			if err := c.d3.Unpack(c.primer); err == nil {
+				// ... and the value decoded first belongs to its own datapoint: it is what it was,
+				// whatever another datapoint of the type has decoded since (the comparison through a
+				// second instance above says nothing if the registry hands out one shared instance)
+				stage = stPack
+				if !bytes.Equal(c.d.Pack(), p2) {
+					o |= oOtherInstance
+				}
+				stage = stUnpack
 				if err := c.d3.Unpack(p); err != nil {
 					o |= oReceiverDep
 					c.p4 = nil
@@ -337,6 +346,7 @@ func (c *codec) classes(o outcome) []string {
 	add(oNotIdentical, "C06:not-byte-identical:%s")
 	add(oAliasPayload, "C06:decoded-value-aliases-payload:%s")
 	add(oReceiverDep, "C06:decode-depends-on-receiver:%s")
+	add(oOtherInstance, "C06:value-changed-by-another-datapoint:%s")
 	add(oPanicPack, "C06:panic:Pack:%s")
 	add(oPanicReUnpack, "C06:panic:Unpack-of-reencoded:%s")
 	add(oPanicUnpack, "C08:panic:%s")
@@ -419,6 +429,9 @@ func (c *codec) describe(p []byte, o outcome) string {
 			}
 			if o&oReceiverDep != 0 {
 				fmt.Fprintf(&b, "; decoded into a receiver that held the value of payload % x before, the same payload yields a value that encodes to % x (nil: rejected): the result depends on what the receiver held", c.primer, c.p4)
+			}
+			if o&oOtherInstance != 0 {
+				fmt.Fprintf(&b, "; after another datapoint obtained from dpt.Produce(%q) decoded payload % x, the first datapoint no longer encodes to that: the two share their value", c.name, c.primer)
 			}
 			if o&oAliasPayload != 0 {
 				fmt.Fprintf(&b, "; decoded from a buffer that is overwritten afterwards (as a receiver re-using its buffer does) the same value encodes to % x: it shares memory with the payload", c.p3)
@@ -518,6 +531,9 @@ func replay(prop string) func(class string, input json.RawMessage) (string, bool
 		p, err := hex.DecodeString(in.Payload)
 		if err != nil {
 			return "cannot parse payload: " + err.Error(), false
+		}
+		if shared, detail := sharedInstance(in.Type); shared || strings.HasSuffix(class, ":datapoints-of-a-type-share-one-value") {
+			return detail, shared
 		}
 		c := newCodec(in.Type)
 		if c == nil {
